@@ -4,6 +4,7 @@
 package iosim
 
 import (
+	"bufio"
 	"fmt"
 	"io"
 
@@ -31,10 +32,34 @@ type Schedule struct {
 }
 
 // InjectedError is the unique failure a Fail step makes the reader return.
-type InjectedError struct{ ID int }
+type InjectedError struct {
+	ID int
+	// Wraps, when set, is what errors.Unwrap yields: a failure that WRAPS
+	// io.EOF (a transport that annotates the end it saw) is still a failure of
+	// its own identity, not a plain end of stream.
+	Wraps error
+}
 
 func (e *InjectedError) Error() string {
+	if e.Wraps != nil {
+		return fmt.Sprintf("verifsim: injected read failure #%d: %v", e.ID, e.Wraps)
+	}
 	return fmt.Sprintf("verifsim: injected read failure #%d", e.ID)
+}
+
+func (e *InjectedError) Unwrap() error { return e.Wraps }
+
+// FailErrFor returns the error value of a failure kind: "" the plain injected
+// error, "wraps-eof" an injected error that wraps io.EOF, "unexpected-eof" the
+// well-known io.ErrUnexpectedEOF itself.
+func FailErrFor(kind string) error {
+	switch kind {
+	case "wraps-eof":
+		return &InjectedError{ID: 2, Wraps: io.EOF}
+	case "unexpected-eof":
+		return io.ErrUnexpectedEOF
+	}
+	return &InjectedError{ID: 1}
 }
 
 // ReadRec is the record of one Read call.
@@ -75,6 +100,11 @@ type SimReader struct {
 	Clock *core.Clock
 	// FailErr is what a fail step returns.
 	FailErr error
+	// Front, when set, is the reader the scanner is given instead of the
+	// SimReader itself (a wrapper around it); Ahead returns what that wrapper
+	// has read from the SimReader and not handed on yet.
+	Front io.Reader
+	Ahead func() []byte
 	// OnBlock runs inside a Read that finds nothing available, before the next
 	// producer step is applied: the instant at which the input source blocks.
 	OnBlock func(r *SimReader)
@@ -152,14 +182,39 @@ func NewSimReader(b []byte, s Schedule, c *core.Clock) *SimReader {
 }
 
 // Offset is the number of bytes handed to the caller so far.
-func (r *SimReader) Offset() int { return r.off }
+func (r *SimReader) Offset() int { return r.off - len(r.ahead()) }
+
+func (r *SimReader) ahead() []byte {
+	if r.Ahead == nil {
+		return nil
+	}
+	return r.Ahead()
+}
+
+// WrapBufio puts a bufio.Reader of the given size between the caller and the
+// simulated reader (callers do hand such readers to the scanner: os.Stdin
+// behind a bufio.Reader, a bufio.Reader shared with other parsing code). What
+// the wrapper has read ahead counts as not handed out yet.
+func (r *SimReader) WrapBufio(size int) {
+	br := bufio.NewReaderSize(r, size)
+	r.Front = br
+	r.Ahead = func() []byte {
+		p, _ := br.Peek(br.Buffered())
+		return p
+	}
+}
 
 // Delivered is the number of bytes the producer has made available so far.
 func (r *SimReader) Delivered() int { return r.delivered }
 
 // Unread returns the bytes of the stream not handed out yet (whether or not
 // the producer has released them already).
-func (r *SimReader) Unread() []byte { return r.B[r.off:] }
+func (r *SimReader) Unread() []byte {
+	if a := r.ahead(); len(a) > 0 {
+		return append(append([]byte(nil), a...), r.B[r.off:]...)
+	}
+	return r.B[r.off:]
+}
 
 // Terminated reports whether the terminal condition has been returned.
 func (r *SimReader) Terminated() bool { return r.term != nil }
